@@ -493,6 +493,10 @@ macro_rules! cfi_instance {
         #[kani::stub(std::fmt::format, stub_format_marker)]
         #[kani::stub(str::parse, stub_parse_rec)]
         #[kani::stub(TimestampCfg::get_timestamp, cut_get_timestamp)]
+        #[kani::stub(str::find, verif_support::str_find_model)]
+        #[kani::stub(str::contains, verif_support::str_contains_model)]
+        #[kani::stub(std::ffi::OsStr::to_string_lossy, verif_support::osstr_to_string_lossy_model)]
+        #[kani::stub(std::path::Path::to_string_lossy, verif_support::path_to_string_lossy_model)]
         fn $name() {
             cfi_case($nosfx, $p1, $p2, $want);
         }
